@@ -776,8 +776,16 @@ func streamCases(thorough bool) []reqCase {
 					if oi == 0 && w == (window{}) {
 						continue
 					}
+					// An index-rule order is its own shape class ("ix-"): with a tag-filter criterion the vectorized scan must
+					// NOT cap the merge before the egress filter there (the row scan resumes across pulls), unlike the
+					// time/none orders where the open finding "limit before the tag filter" lives. The label keeps the two
+					// apart so that the known-finding pattern of the latter cannot absorb a defect of the former.
+					ol := o.label
+					if o.o != nil && o.o.GetIndexRuleName() != "" {
+						ol = "ix-" + ol
+					}
 					out = append(out, reqCase{Engine: 'S', Msg: sreq(p, false, c, o, w), Ordered: o.o != nil,
-						Shape: "stream/" + streamClass(c.label) + "/order=" + o.label + "/window=" + winClass(w)})
+						Shape: "stream/" + streamClass(c.label) + "/order=" + ol + "/window=" + winClass(w)})
 				}
 			}
 		}
